@@ -63,6 +63,20 @@ def one(tl, db, name, d, boxed=True):
         signal.alarm(0)
 
 
+def scramble(x, depth=0):
+    """what a caller may do with a value it was handed: empty it, recursively"""
+    if depth > 8:
+        return
+    if isinstance(x, dict):
+        for v in list(x.values()):
+            scramble(v, depth + 1)
+        x.clear()
+    elif isinstance(x, list):
+        for v in x:
+            scramble(v, depth + 1)
+        del x[:]
+
+
 def _one(tl, db, name, d, boxed=True):
     rec = {'op': 'tl', 'c': name, 'boxed': int(boxed), 'v': tlkit.to_spec(db, name, d)}
     try:
@@ -73,6 +87,10 @@ def _one(tl, db, name, d, boxed=True):
         rec['back'] = {'err': 'not_serialized'}
         return rec
     try:
+        if len(data) % 4 == 0 and (len(data) // 4) % 3 == 0:
+            # the caller took an earlier parse of the very same bytes apart (it owns what it was given)
+            first = tl.deserialize(data) if boxed else tl.deserialize(data, False, tl.get_by_name(name).args)
+            scramble(first[0])
         if boxed:
             back, used = tl.deserialize(data)
         else:
